@@ -17,7 +17,7 @@
 //            sss_<cmp>, fss_<cmp>, fbs_<cmp>  static_set / flat_set over static_vector / flat_set over bvec with the key
 //                               type SK = a std::string too long for the small-string buffer (defaulted copy / move: the
 //                               library's own move assignment, which empties the source -- also on a self-move)
-//            After every erase(key) / erase(pos) / erase(first, last) that removed nothing the TK families print
+//            After every erase(key) / erase(pos) / erase(first, last) / erase_if that removed nothing the TK families print
 //            "touched <n>": the number of element objects the call copied, moved or assigned to (the property: 0)
 //            fms_<cmp>          etl::flat_multiset<int, etl::static_vector<int, 8>, Cmp>: "<config> <n> k1..kn"
 //   cmp    = less | greater | tless (etl::less<>, heterogeneous lookups) | half (a/2 < b/2: equivalence != equality)
@@ -420,10 +420,10 @@ bool sorted_unique_under(std::vector<int> const& v, Cmp cmp)
 
 enum class Kind { static_set, flat_set };
 
-// the erase calls that go straight to the backing vector (erase_if = remove_if + erase of the tail is not one)
-inline auto is_vector_erase(std::string const& code) -> bool
+// the erase calls: erase(key), erase(pos), erase(first, last), erase_if
+inline auto is_erase_call(std::string const& code) -> bool
 {
-    return code == "ek" || code == "ep" || code == "epc" || code == "er";
+    return code == "ek" || code == "ep" || code == "epc" || code == "er" || code == "ef";
 }
 
 template <typename S, typename K>
@@ -661,7 +661,7 @@ void run_impl(Toks in, Out& out, std::size_t cap)
         contents(step, s);
         if constexpr (tracked) {
             // an erase that removed nothing: how many element objects did the call copy / move / assign to
-            if (!fired && is_vector_erase(code) && s.size() == size_before) { step.tok("touched").num(TK::touched); }
+            if (!fired && is_erase_call(code) && s.size() == size_before) { step.tok("touched").num(TK::touched); }
             // a longjmp out of a fired precondition skips destructors of temporaries: no accounting afterwards
             if (!fired && TK::live != static_cast<long>(s.size() + t.size())) { step.tok("live-objects-differ"); }
         }
@@ -826,7 +826,7 @@ void run_ref(Toks in, Out& out, std::size_t cap, bool counted = false)
         contents(step, s);
         // [associative.reqmts]: an erase that removes nothing has no effect; std::set (node based) never assigns to
         // an element at all
-        if (counted && !fired && is_vector_erase(code) && s.size() == size_before) { step.tok("touched").num(0); }
+        if (counted && !fired && is_erase_call(code) && s.size() == size_before) { step.tok("touched").num(0); }
         out.tok(step.s);
     }
     if (na) {
